@@ -12,6 +12,21 @@ CLAIMED = {
  "C02": ("reference model by construction: generated ASTs printed by an independent printer, parse compared field by field (Hypothesis)",
          "Generated-input search against a reference model: the AST is ground truth because the string is produced from it with a descriptor written exactly like a leaf atom; for every token the parsed descriptors (symbol, id, weight, list, attachment atom, bond order, numbering) and the atoms/internal bonds of the public SMILES fragment are compared with the AST, for objects the terminals, token lists, distribution family/parameters, for molecules/systems element kinds, order and mixture. Every legal descriptor placement is generated and its frequency reported. Sampling, not exhaustive.",
          "Trusted: gbsv/ast.py printer (itself validated against RDKit by replacing descriptors with dummy atoms), RDKit SMILES parser for the fragment.", "DESIGN.md §2 C02"),
+ "C04": ("invariant over generated structures: residue decomposition of generated molecules (random seeds + all scripted choice sequences of bounded instances) with a descriptor-assignment search against the reference compatibility rule",
+         "Generated-input search: well-posed molecules of every archetype (incl. double/triple-bond descriptors, ids, lists, connectors) are generated under seeded generators, forced and sampled targets, and - for bounded instances - under every sequence of random choices (scripted numpy Generator, depth first). The result is decomposed into residue instances verified atom by atom against reference fragments; every bond between residues must be assignable, injectively per residue, to one descriptor at each end such that the two are compatible by the reference rule and prescribe the bond's order.",
+         "Trusted: reference fragments built from the AST, RDKit, the tag the harness puts on MolGen.graph nodes (verified afterwards).", "DESIGN.md §2 C04"),
+ "C05": ("reference reconstruction: generated molecule vs residues re-assembled from the written tokens (canonical SMILES, atom-wise comparison, tree shape, mass sum)",
+         "Same generated runs as C04. Oracles: residues partition the atoms; each equals its token in elements, charges, isotopes and internal bonds; residues form a tree equal to MolGen.graph; the molecule sanitises; re-assembling reference fragments with the observed inter-residue bonds gives the same canonical SMILES (pins hydrogen counts of non-bracket atoms); weight equals the sum of residue heavy-atom masses.",
+         "Trusted: RDKit sanitisation and canonical SMILES on both sides; reference fragments from the AST.", "DESIGN.md §2 C05"),
+ "C06": ("invariant over generated structures of well-posed molecules (closability analysis) incl. every scripted choice sequence of bounded instances",
+         "Same generated runs. Oracles: generation of a well-posed closed molecule returns (no exception), is fully generated, every descriptor of every residue formed exactly one bond, residues are created in written element order, every prefix/connector/suffix exactly once, every stochastic object at least one repeat unit, consecutive elements joined by exactly one bond through descriptors matching the terminals, non-adjacent elements never bonded, end groups are leaves. Termination is bounded liveness (wall-clock guard only as inconclusive outer limit).",
+         "Trusted: the closability analysis of gbsv/reflaw.py decides which molecules are well-posed (its reject rate is reported).", "DESIGN.md §2 C06"),
+ "C07": ("stopping-rule arithmetic on residue masses under forced targets (k units +- 1e-7 / half unit / below one unit / negative) and tapped real draws",
+         "Same generated runs. For every stochastic object the residues it created are split into growth and capping residues and the reference masses must satisfy: no strict prefix of the growth exceeds the target, the full growth does (or no descriptor was left), at least one unit, prefix/earlier elements/caps not counted, exactly one draw per object. Ties within 1e-9 are skipped.",
+         "Trusted: reference heavy-atom masses from the AST; the tap on draw_mw (class level, public method).", "DESIGN.md §2 C07"),
+ "C08": ("exhaustive enumeration of all random-choice sequences (scripted generator) of bounded instances vs an exact reference outcome law; probability vectors checked at the generator interface",
+         "For bounded instances of every archetype the scripted generator enumerates every choice sequence of the real generator; the probability of each producible molecule (sum over paths of the product of the probabilities handed to rng.choice) must equal, within 1e-9, the value computed from the notation by an independent enumerator; supports must be equal, the total must be 1, and every vector handed to rng.choice must be a probability vector. Exhaustive per instance (when the path cap is not hit), sampling over instances.",
+         "Trusted: the reference law of gbsv/reflaw.py (DESIGN.md §0), RDKit canonical SMILES as molecule identity.", "DESIGN.md §2 C08"),
  "C15": ("breaking operators on generated valid instances with a must-be-rejected oracle (Hypothesis) + byte-level mutation and coverage-guided fuzzing (atheris/libFuzzer) under a deterministic step budget",
          "Generated-input search: 17 breaking operators, each producing an invalid string by construction, are applied at generated positions to valid well-posed molecules of every archetype; the broken string must end in an error at parse or at generate (non-generable for negative weights / missing distribution) - a produced molecule is the violation. Termination of the five constructors is explored with Hypothesis byte mutations of docs/tests strings and two atheris campaigns (seeded and empty corpus) under a line-event budget.",
          "Trusted: each operator's claim that its output is invalid (stated per operator in gbsv/checks/c15.py); termination is bounded liveness: 20000+2000*len line events inside gbigsmiles.", "DESIGN.md §2 C15"),
